@@ -317,6 +317,83 @@ def gen_range_hist(g, hid):
     return h
 
 
+def gen_compkey_hist(g, hid):
+    """A composite key declared by a TABLE constraint `primary key (c1, c2[, c3])` (today: the key columns
+    become NOT NULL, nothing else - the model's table is unkeyed with NOT NULL columns), key columns not
+    co-monotone, several INSERTs; queries ordered / grouped / limited on EACH single key column without
+    reading the others.  Only the ORDER BY column is selected, so the answer is ONE sequence whatever the
+    ties: compared as sequences between the engines."""
+    r = g.r
+    nk = r.choice([2, 2, 3])
+    names = ["a", "b", "c", "d"]
+    cols = [(names[j], "INT", j < nk, False) for j in range(nk + 1)]
+    d = sg.TableDef("t0", cols)
+    order = list(range(nk))
+    if r.random() < 0.4:
+        r.shuffle(order)            # the constraint may list the key columns in another order
+    sql = "create table t0 (%s, primary key (%s))" % (", ".join("%s int" % c[0] for c in cols), ", ".join(names[j] for j in order))
+    opts = (r.choice([256 << 20, 1 << 20, 16384, 2048, 512]), r.choice([32, 64, 128, 1024, 16384]), r.choice([0, 1]), r.choice([1, 1, 0]))
+    g.count("compkey:keycols=%d" % nk)
+    steps = [{"k": "create", "def": d, "sql": sql}]
+    queries = []
+    seen = set()
+
+    def ins(n):
+        rows = []
+        while len(rows) < n:
+            # independent columns: a ascending-ish, b descending-ish or random - never co-monotone
+            base = r.randrange(0, 60)
+            key = tuple([base, r.choice([60 - base, r.randrange(0, 60)]), r.randrange(-5, 5)][:nk])
+            if key in seen:
+                continue
+            seen.add(key)
+            rows.append(key + (g.gen_val("INT", False),))
+        return {"k": "insert", "table": "t0", "rows": rows, "def": d, "sql": "insert into t0 values %s" % ", ".join(
+            "(" + ", ".join(sg.sql_lit(v, "INT") for v in row) + ")" for row in rows)}
+
+    def ask():
+        k = len(steps) - 1
+        for j in r.sample(range(nk), r.choice([1, 2, nk])):
+            c = names[j]
+            form = r.random()
+            if form < 0.35:
+                q = "select %s from t0 order by %s%s" % (c, c, r.choice(["", "", " desc"]))
+            elif form < 0.6:
+                q = "select %s from t0 order by %s limit %d" % (c, c, r.choice([1, 2, 3, 10]))
+            elif form < 0.75:
+                q = "select %s from t0 order by %s limit %d offset %d" % (c, c, r.choice([1, 2, 5]), r.choice([1, 2, 4]))
+            elif form < 0.9:
+                q = "select %s, count(*) from t0 group by %s order by %s" % (c, c, c)
+            else:
+                q = "select %s from t0 where %s >= %d order by %s" % (c, c, r.randrange(0, 60), c)
+            queries.append((k, q, "keycolseq", None))
+            g.count("query:compkey-single-key-column")
+        if r.random() < 0.3:
+            c = names[r.randrange(nk)]
+            queries.append((k, "select %s, count(*) from t0 group by %s" % (c, c), "bag", None))
+
+    for _ in range(r.choice([2, 3, 4])):
+        steps.append(ins(r.choice([3, 6, 6, 20, 40])))
+    ask()
+    for _ in range(r.randint(1, 4)):
+        x = r.random()
+        if x < 0.4:
+            steps.append(ins(r.choice([3, 6, 20])))
+        elif x < 0.6:
+            p = g.gen_pred(d, 1, avoid_pk=False)
+            ps = sg.pred_sql(p, d)
+            steps.append({"k": "delete", "table": "t0", "pred": p, "def": d,
+                          "sql": "delete from t0" + ("" if ps is None else " where " + ps)})
+        elif x < 0.8:
+            steps.append({"k": "compact"})
+        else:
+            steps.append({"k": "reopen"})
+        ask()
+    h = sg.make_hist(hid, opts, NAMES, steps)
+    h["queries"] = queries
+    return h
+
+
 def table_facts(i, orc, t, opts):
     """what is known about the table a query reads: key type, duplicate / NULL keys, number of live
     row-sets, whether first keys are recorded"""
@@ -340,7 +417,7 @@ def same_result(kind, x, y):
     if kind.startswith("ordcol"):
         c = int(kind[6:])           # same rows, and the ORDER BY column (selected at position c) as a sequence
         return [v[c] for v in rx] == [v[c] for v in ry]
-    if kind in ("pkrangeseq", "pkjoinseq"):
+    if kind in ("pkrangeseq", "pkjoinseq", "keycolseq"):
         return rx == ry             # unique keys: the ORDER BY answer is one sequence
     return kind not in ("ord", "pkord", "pkrangeord") or [v[0] for v in rx] == [v[0] for v in ry]
 
@@ -366,6 +443,10 @@ def run(ck):
     for i in range(n):
         if i % 8 == 3:
             h = gen_range_hist(g, i)
+            hists.append(attach_queries(h, h["queries"]))
+            continue
+        if i % 16 == 7:
+            h = gen_compkey_hist(g, i)
             hists.append(attach_queries(h, h["queries"]))
             continue
         g.null_in_nn = 0.04 if i % 2 else 0.0    # such INSERTs must be rejected by both engines
@@ -450,7 +531,7 @@ def run(ck):
                 noopt, plan_m, plan_d = (parts + ["", "", ""])[2:5]
                 _, sql, kind, meta = h["queries"][int(qi)]
                 ca, ra = parse_result(a)
-                tagged = kind in ("pkord", "pkrange", "pkrangeord", "pkrangeseq", "pkjoin", "pkjoinseq", "winorder")
+                tagged = kind in ("pkord", "pkrange", "pkrangeord", "pkrangeseq", "pkjoin", "pkjoinseq", "winorder", "keycolseq")
                 T["tagged" if tagged else "queries"] += 1
                 okq = same_result(kind, a, b)
                 if ra:
@@ -540,6 +621,11 @@ def run(ck):
                     ck.report("engines:window-ignores-order-by",
                               "query `%s` differs between engines: memory %s, disk %s - the running aggregate follows each engine's scan order, "
                               "the window's ORDER BY is bound but not planned or executed (shared query layer; visible as an engine difference)" % (sql, a[:200], b[:200]), replay=qrp)
+                elif kind == "keycolseq":
+                    T["io_bad"] += 1
+                    ck.report("engines:query:composite-key-order",
+                              "query `%s` on a table whose key is declared by a table constraint differs between engines as a sequence: memory %s, disk %s, "
+                              "disk with the optimizer off %s; plan on disk: %s" % (sql, a[:200], b[:200], noopt[:160], plan_d[:300]), replay=qrp)
                 elif kind == "win" or kind.startswith("ordcol"):
                     T["io_bad"] += 1
                     ck.report("engines:query:window" if kind == "win" else "engines:query:outer-join-order",
